@@ -22,6 +22,8 @@ inductive Stmt where
   | forever (body : Stmt) (post : Nat)              -- for ; ; post { body }
   | brk
   | cont
+  | swc (c : Nat) (a : Stmt) (rest : Stmt)          -- switch { case c: a; <rest> }   (rest: further cases / default)
+  | swd (d : Stmt)                                  -- … default: d }   (empty d: no default clause)
   deriving Repr
 
 /-- the leaf codes: actions and conditions -/
@@ -41,6 +43,15 @@ def rwI (db dc rem : Nat) (i : Instr) : Instr :=
 def rw (db dc : Nat) : List Instr → List Instr
   | [] => []
   | i :: is => rwI db dc is.length i :: rw db dc is
+
+/-- a `switch` clause rewrites only the BREAK placeholders of its (already compiled) block;
+    CONTINUE stays for the enclosing loop -/
+def rwBI (db rem : Nat) (i : Instr) : Instr :=
+  if i.op = "BREAK" then { i with op := "JUMP", a := ((rem + db : Nat) : Int) } else i
+
+def rwB (db : Nat) : List Instr → List Instr
+  | [] => []
+  | i :: is => rwBI db is.length i :: rwB db is
 
 /-- the compile schemes, instruction for instruction as compiler.go emits them (optimizer off) -/
 def compile (L : Leaves) : Stmt → List Instr
@@ -65,5 +76,10 @@ def compile (L : Leaves) : Stmt → List Instr
     rw (1 + P.length) 0 B ++ P ++ [jump "JUMP" (-((B.length : Int) + P.length + 1))]
   | .brk => [{ op := "BREAK" }]
   | .cont => [{ op := "CONTINUE" }]
+  | .swd d => rwB 0 (compile L d)
+  | .swc c a r =>
+    let A := compile L a
+    let R := compile L r
+    L.cnd c ++ [jump "JUMPFALSE" (A.length + 1)] ++ rwB (R.length + 1) A ++ [jump "JUMP" R.length] ++ R
 
 end Goat.CF
